@@ -1553,6 +1553,38 @@ fn gen_case(rng: &mut Rng, thorough: bool, stats: &mut Stats, out: &mut Vec<Stri
 			}
 			stats.hit("burst_nested_spatial");
 		}
+		if spatial_on && clocks_on && rng.chance(1, 30) {
+			// clock → listener → spatial track: a listener (and the emitter) jump at a clock time; the listeners are
+			// updated after the clocks of the same chunk, so the jump is heard in the chunk in which the tick is reached
+			out.push(format!("clock tps={}", o64(rng.pick(&[1000.0, 200.0, 4000.0]))));
+			g.clocks += 1;
+			let c = g.clocks - 1;
+			out.push(format!("clock.cmd {} start", c));
+			out.push(format!("listener f{} f{}", gen_vec3_raw(rng), gen_quat_raw(rng)));
+			g.listeners += 1;
+			let l = g.listeners - 1;
+			let st = gen_strack(rng, &mut g, -1, format!("l{}", l));
+			out.push(st);
+			let t = g.tracks - 1;
+			out.push(format!(
+				"play {} {} 4000 48000 f{} f{} f{} n=0~end 0 n=0 - imm",
+				t,
+				rng.pick(&["idx", "lr", "dc=3e800000"]),
+				o32(0.0),
+				o64(1.0),
+				o32(0.0)
+			));
+			g.sounds += 1;
+			out.push(gen_cb(rng, &g));
+			let dur = |rng: &mut Rng| rng.pick(&[0u64, 0, 1_000_000, 5_000_000]);
+			out.push(format!("lis.pos {} f{} clk:{}:{}:{};{};lin", l, gen_vec3_raw(rng), c, rng.range(1, 30), o64(0.0), dur(rng)));
+			out.push(format!("lis.ori {} f{} clk:{}:{}:{};{};lin", l, gen_quat_raw(rng), c, rng.range(1, 30), o64(0.5), dur(rng)));
+			out.push(format!("trk {} pos f{} clk:{}:{}:{};{};lin", t, gen_vec3_raw(rng), c, rng.range(1, 30), o64(0.0), dur(rng)));
+			for _ in 0..rng.range(3, 6) {
+				out.push(gen_cb(rng, &g));
+			}
+			stats.hit("burst_listener_clock");
+		}
 		if rate_on && fx_kinds() >= 5 && rng.chance(1, 40) {
 			// a track or send with a rate-dependent effect (delay / reverb) that is still in the new-resource ring
 			// when the device rate changes, then heard
